@@ -6,6 +6,8 @@ CONSTANTS
   NB = 3
   MaxDepth = 40
   UseSystematic = FALSE
+  Bug = "none"
+  RandomPick = TRUE
   UsePreludes = TRUE
   WKey = 10
   WEnv = 12
